@@ -31,6 +31,25 @@ def _run_seed(args):
     return seed, [json.loads(l) for l in r.stdout.splitlines() if l.startswith("{")], r.stderr[-500:] if r.returncode else ""
 
 
+def rule_no_global_rng():
+    """no use of the global pseudo-random generators (module `random`, `numpy.random`) in einx code (docstring examples are not code)"""
+    import ast
+    sites, failing = [], []
+    for f in frame.all_files():
+        t = ast.parse(open(f).read())
+        r = frame.rel(f)
+        for n in ast.walk(t):
+            if isinstance(n, ast.Import) and any(a.name.split(".")[0] == "random" for a in n.names) or isinstance(n, ast.ImportFrom) and (n.module or "").split(".")[0] == "random":
+                sites.append(f"{r}:{n.lineno}:import random")
+                failing.append(f"{r}:{n.lineno}: imports the global `random` module")
+            if isinstance(n, ast.ImportFrom) and (n.module or "") in ("numpy.random",) or isinstance(n, ast.Import) and any(a.name == "numpy.random" for a in n.names):
+                failing.append(f"{r}:{n.lineno}: imports numpy.random")
+            if isinstance(n, ast.Attribute) and n.attr == "random" and isinstance(n.value, ast.Name) and n.value.id in ("np", "numpy", "_np"):
+                sites.append(f"{r}:{n.lineno}:{ast.unparse(n)}")
+                failing.append(f"{r}:{n.lineno}: uses numpy's global random state ({ast.unparse(n)})")
+    return not failing, sites, failing
+
+
 def run(tier, seed):
     chk = Check("C16", tier, seed, "other")
     ok, sites, failing = frame.rule_setiter(proved_sites=list(PROVED_SITES) + list(ASSUMED_SITES) + list(KNOWN_SITES))
@@ -41,6 +60,13 @@ def run(tier, seed):
     chk.add_rule("C16.S.join_order", ok, sites, failing)
     ok, sites, failing = frame.rule_no_name_order()
     chk.add_rule("C16.S.no_name_order", ok, sites, failing)
+    from .C06 import ALLOWED_WRITERS
+    ok, sites, failing, _inv = frame.rule_shared(ALLOWED_WRITERS)
+    chk.add_rule("C16.S.shared", ok, sites, failing, detail="'regardless of how many times or in which order it is repeated': no call-time writes to module-level state other than the registry, "
+                 "the functools caches (whose transparency is C06) and thread-locals - a memo kept by einx itself (keyed by id(), __code__, text, ...) makes results depend on call order")
+    ok, sites, failing = rule_no_global_rng()
+    chk.add_rule("C16.S.no_global_rng", ok, sites, failing, detail="einx draws its internal identifiers from uuid4 (os.urandom): it must neither read nor advance the caller's random / numpy.random streams, "
+                 "or a seeded tensor factory returns different values depending on whether the call was traced or served from the cache")
     lits, bad = literals_prefix_free()
     chk.add_rule("C16.P.literals", not bad and len(lits) >= 8, [f"_literals = {sorted(lits)}"], [f"literal {a!r} is a prefix of {b!r}" for a, b in bad], "first-match lexing must not depend on the order of list(set(...))")
     try:
